@@ -255,8 +255,31 @@ func checkC12(w *World, r *Report) {
 		r.Unk("infra.anchor", "x/cfevesting/types.UnitsFromDuration / DurationFromUnits", "", "anchor not found")
 	} else {
 		fromUnits := map[string]int64{}
+		// table form: both conversions range over one package-level table of (unit, length) rows
+		type tableUse struct {
+			g           *ssa.Global
+			fUnit, fLen int
+		}
+		var fromTable, toTable *tableUse
 		for _, ret := range Returns(from) {
 			rv := retVals(ret)
+			if g, fu, bu, okU := tableFieldOf(rv[0]); okU {
+				// (row.unit, duration / row.length) of one and the same row
+				if bo, isBo := stripConv(rv[1]).(*ssa.BinOp); isBo && bo.Op == token.QUO {
+					if g2, fl, bl, okL := tableFieldOf(bo.Y); okL && g2 == g && sameElem(bu, bl, 0) {
+						if rows, n, okT := constTable(w, g); okT && int64(len(rows)) == n {
+							fromTable = &tableUse{g, fu, fl}
+							for _, row := range rows {
+								if cu, cl := row[fu], row[fl]; cu != nil && cl != nil && cu.Value != nil && cl.Value != nil && cu.Value.Kind() == constant.String {
+									d, _ := constant.Int64Val(constant.ToInt(cl.Value))
+									fromUnits[constant.StringVal(cu.Value)] = d
+								}
+							}
+							continue
+						}
+					}
+				}
+			}
 			u, ok := EvalString(rv[0])
 			if !ok {
 				r.Unk("C12.lossless", "UnitsFromDuration returns constant units", w.Pos(from.Pos()), "non-constant unit")
@@ -323,6 +346,63 @@ func checkC12(w *World, r *Report) {
 				}
 			}
 		}
+		// table form of the import: the row whose unit equals the parameter is selected (equality edge dominating the
+		// return) and its length multiplies the value: the factor of a unit is the length of its row
+		for _, ret := range Returns(to) {
+			rv := retVals(ret)
+			if len(rv) == 2 && !isNilConst(rv[1]) {
+				continue
+			}
+			mul, isMul := stripConv(rv[0]).(*ssa.BinOp)
+			if !isMul || mul.Op != token.MUL {
+				continue
+			}
+			for _, side := range []ssa.Value{mul.X, mul.Y} {
+				g, fl, bl, okL := tableFieldOf(side)
+				if !okL {
+					continue
+				}
+				fu := -1
+				edges := EdgesWhere(to, func(b ssa.Value) (bool, bool) {
+					bo, isBo := b.(*ssa.BinOp)
+					if !isBo || bo.Op != token.EQL {
+						return false, false
+					}
+					for _, pair := range [][2]ssa.Value{{bo.X, bo.Y}, {bo.Y, bo.X}} {
+						if stripConv(pair[1]) != ssa.Value(unitP) {
+							continue
+						}
+						if g2, f2, b2, ok2 := tableFieldOf(pair[0]); ok2 && g2 == g && sameElem(b2, bl, 0) {
+							fu = f2
+							return true, true
+						}
+					}
+					return false, false
+				})
+				if fu < 0 || !MustPass(to, edges, ret.Block()) {
+					continue
+				}
+				if rows, n, okT := constTable(w, g); okT && int64(len(rows)) == n {
+					toTable = &tableUse{g, fu, fl}
+					seen := map[string]bool{}
+					for i := int64(0); i < n; i++ {
+						row := rows[i]
+						if cu, cl := row[fu], row[fl]; cu != nil && cl != nil && cu.Value != nil && cl.Value != nil && cu.Value.Kind() == constant.String {
+							name := constant.StringVal(cu.Value)
+							if seen[name] {
+								continue // the first row with the unit wins
+							}
+							seen[name] = true
+							d, _ := constant.Int64Val(constant.ToInt(cl.Value))
+							if _, asked := fromUnits[name]; asked {
+								toUnits[name] = d
+							}
+						}
+					}
+				}
+			}
+		}
+		_, _ = fromTable, toTable
 		var us []string
 		for u := range fromUnits {
 			us = append(us, u)
